@@ -282,14 +282,13 @@ Definition known_input (o : op) (d v : oresult) : option finding :=
   | GetBlobRange _ _ o0 o1, OErr c =>
       if range_unsendable o0 o1 && ecode_eqb c UNKNOWN then Some FRange else None
   | PushBlob _ de content, OErr c =>
-      (* net/http refuses a body whose length is not the announced Content-Length: a
-         transport error without OCI code - or, when the body is longer and the server was
-         quicker than the client's check, the digest mismatch of the truncated content; the
-         direct call answers SIZE_INVALID (DIGEST_INVALID when the digest is wrong too) *)
+      (* ociclient refuses content whose (known) length is not the size in the descriptor
+         with SIZE_INVALID before it sends anything; the direct call answers SIZE_INVALID too,
+         but DIGEST_INVALID when the digest is wrong as well (it checks the digest first) *)
       match d with
       | OErr _ =>
           if negb (d_size de =? blen content)%Z && (0 <? d_size de)%Z && (0 <? blen content)%Z
-             && (ecode_eqb c ENone || ecode_eqb c DIGEST_INVALID)
+             && ecode_eqb c SIZE_INVALID
           then Some FPushSize else None
       | _ => None
       end
@@ -343,19 +342,16 @@ Definition view (cfg : scfg) (o : op) (r : oresult) : oresult :=
     | ResolveBlob _ _, OOk (RDesc de) => OOk (RDesc (set_media MT_OCTET de))
     | MountBlob _ _ dg, OOk (RDesc de) =>
         OOk (RDesc {| d_media := MT_OCTET; d_digest := dg; d_size := 0; d_artifact := d_artifact de |})
-    | PushBlob _ _ _, OErr c => if push_size_mismatch o then OErr ENone else OErr (view_code cfg o c)
+    | PushBlob _ _ _, OErr c => if push_size_mismatch o then OErr SIZE_INVALID else OErr (view_code cfg o c)
     | _, OErr c => OErr (view_code cfg o c)
     | _, OList l (Some c) => OList l (Some (wire_code c))
     | _, ODescs l (Some c) => ODescs l (Some (wire_code c))
     | _, _ => r
     end.
 
-(* answers the stack may give instead of [view] (a race the real code leaves open) *)
-Definition view_alts (o : op) (d : oresult) : list oresult :=
-  match d with
-  | OErr _ => if push_size_mismatch o then [OErr DIGEST_INVALID] else []
-  | _ => []
-  end.
+(* answers the stack may give instead of [view] (a race the real code leaves open): none
+   since ociclient.PushBlob holds content of known length to the descriptor's size itself *)
+Definition view_alts (o : op) (d : oresult) : list oresult := [].
 
 (* results a registry can give to an operation, as far as [view_rel] needs to know *)
 Definition head_status_kept (c : ecode) : bool :=
